@@ -34,6 +34,8 @@ ITEM == Struct(<<Fld(n_k, "attr", STR), Fld(n_text, "text", STR)>>)
 INNER3 == Struct(<<Fld(n_attr, "attr", STR), Fld(n_c, "elem", Opt(STR))>>)        \* innermost: c always None
 INNER2 == Struct(<<Fld(n_attr, "attr", STR), Fld(n_c, "elem", Opt(INNER3))>>)
 INNER1 == Struct(<<Fld(n_attr, "attr", STR), Fld(n_c, "elem", Opt(INNER2))>>)
+n_items == <<105,116,101,109,115>>  n_Name == <<78,97,109,101>>  n_Num == <<78,117,109>>
+CHOICE3 == [t |-> "enum", variants |-> <<Var(n_One, "unit", STR), Var(n_Name, "newtype", STR), Var(n_Num, "newtype", NUM), Var(n_text, "text", STR)>>]
 NEST == Struct(<<Fld(n_a, "elem", List(STR))>>)
 
 TypeOf(name) ==
@@ -53,6 +55,8 @@ TypeOf(name) ==
       [] name = "F20" -> Struct(<<Fld(n_m, "elem", [t |-> "map"])>>)
       [] name = "F22" -> Struct(<<Fld(n_a, "elem", List(STR)), Fld(n_b, "elem", List(ITEM)), Fld(n_x, "attr", NUM), Fld(n_c, "elem", STR)>>)
       [] name = "F23" -> Struct(<<Fld(n_a, "elem", List(STR)), Fld(n_b, "elem", List(NEST)), Fld(n_d, "elem", List(NUM))>>)
+      [] name = "F24" -> Struct(<<Fld(n_items, "attr", SList(STR)), Fld(n_one, "attr", STR)>>)
+      [] name = "F25" -> Struct(<<Fld(n_value, "value", List(CHOICE3))>>)
       [] name = "H01" -> Struct(<<Fld(n_m, "elem", [t |-> "map"])>>)
       [] OTHER -> [t |-> "unknown"]       \* outside the schema language: the model has no opinion (SerTree = Fail)
 RootBytes(name) ==
@@ -72,6 +76,8 @@ RootBytes(name) ==
       [] name = "F20" -> <<70,50,48>>
       [] name = "F22" -> <<70,50,50>>
       [] name = "F23" -> <<70,50,51>>
+      [] name = "F24" -> <<70,50,52>>
+      [] name = "F25" -> <<70,50,53>>
       [] name = "H01" -> <<72,48,49>>
       [] name = "H02" -> <<72,48,50>>
       [] name = "H05" -> <<72,48,53>>
@@ -102,7 +108,8 @@ O(pairs) == [o |-> pairs]
 \* exist in XML), so it is outside the round-trippable domain: only non-empty text choices
 ChoiceVals(Pl) == {[u |-> n_One], [u |-> n_Two]} \cup {[v |-> n_text, x |-> S(s)] : s \in Pl \ {<<>>}}
 ItemVals(Pl) == {O(<<<<<<64>> \o n_k, S(k)>>, <<n_text, S(t)>>>>) : k \in {<<>>, <<60>>}, t \in Pl}
-NoAdjacentText(xs) == \A i \in 1..(Len(xs) - 1) : ~("v" \in DOMAIN xs[i] /\ "v" \in DOMAIN xs[i + 1])
+IsTextItem(x) == "v" \in DOMAIN x /\ x.v = n_text
+NoAdjacentText(xs) == \A i \in 1..(Len(xs) - 1) : ~(IsTextItem(xs[i]) /\ IsTextItem(xs[i + 1]))
 
 ValuesOf(name, Pl, mode) ==       \* mode "rt": the documented round-trippable domain; "all": everything generated
     CASE name = "F01" -> {O(<<<<<<64>> \o n_one, S(a)>>, <<<<64>> \o n_two, Nm(b)>>>>) : a \in Pl, b \in Nums}
@@ -134,6 +141,12 @@ ValuesOf(name, Pl, mode) ==       \* mode "rt": the documented round-trippable d
       [] name = "F23" -> {O(<<<<n_a, A(xs)>>, <<n_b, A(ys)>>, <<n_d, A(zs)>>>>) :
                             xs \in Seqs({S(<<97>>), S(<<60>>)}, 2),
                             ys \in Seqs({O(<<<<n_a, A(w)>>>>) : w \in Seqs({S(<<97>>)}, 1)}, 2), zs \in Seqs({Nm(<<55>>)}, 2)}
+      [] name = "F24" -> {O(<<<<<<64>> \o n_items, A(xs)>>, <<<<64>> \o n_one, S(a)>>>>) :
+                            xs \in Seqs({S(s) : s \in StrItem \cup {<<39>>, <<62>>}}, 2), a \in {<<>>, <<34>>, <<60>>}}
+      [] name = "F25" ->
+            LET C3 == {[u |-> n_One]} \cup {[v |-> n_Name, x |-> S(s)] : s \in {<<>>, <<97>>, <<60>>}}
+                      \cup {[v |-> n_Num, x |-> Nm(<<55>>)]} \cup {[v |-> n_text, x |-> S(s)] : s \in {<<97>>, <<38>>}} IN
+            {O(<<<<n_value, A(xs)>>>>) : xs \in {y \in Seqs(C3, 3) : mode = "all" \/ NoAdjacentText(y)}}
       [] name = "H01" -> {O(<<<<n_m, O(ps)>>>>) : ps \in {<<<<k, S(<<97>>)>>>> : k \in {<<>>, <<60>>, <<97, 32, 98>>, <<49, 97>>, <<97>>, <<97, 62>>, <<195, 169>>, <<45, 97>>}}}
       \* outside the schema language (C13 only): Option without skip, nested sequences, unit variants named like markup
       [] name = "H02" -> {O(<<<<<<111>>, x>>, <<<<110>>, A(ys)>>>>) : x \in {None, S(<<60>>)},
@@ -146,5 +159,5 @@ ValuesOf(name, Pl, mode) ==       \* mode "rt": the documented round-trippable d
 \* root tags passed to the serializer (to_string_with_root); the default is the type name
 HostileRoots == { <<>>, <<60>>, <<97, 32, 98>>, <<49, 97>>, <<97, 62>>, <<195, 169>>, <<120, 58, 121>>, <<45, 97>>, <<114>> }
 
-RTTypes == {"F01", "F02", "F03", "F04", "F05", "F07", "F08", "F11", "F15", "F16", "F17", "F18", "F19", "F20", "F22", "F23"}
+RTTypes == {"F01", "F02", "F03", "F04", "F05", "F07", "F08", "F11", "F15", "F16", "F17", "F18", "F19", "F20", "F22", "F23", "F24", "F25"}
 =============================================================================
